@@ -184,6 +184,27 @@ class HistGen:
             # a request that fails late for a reason other than a foreign target: the address key of an own `a` tag
             # exceeds what the index accepts (identifier > 476 bytes), after whatever the earlier tags already did
             tags.append([b'a', rng.choice([b'30000', b'30023']) + b':' + pk.hex().encode() + b':' + b'z' * rng.choice([477, 480, 600])])
+        if self.focus in ('C10', 'C11', 'C12', 'C13') and rng.random() < (0.12 if self.focus == 'C12' else 0.04):
+            # a LONG request: many effective own targets (ids not stored, own addresses, own stored events), then one tag
+            # that makes the whole request fail (a foreign target, or an identifier too long for the index) - or none
+            n = rng.choice([63, 64, 65, 66, 100, 130, 200])
+            own = [e for e in known if e['pk'] == pk]
+            long_tags = []
+            for i in range(n):
+                r = rng.random()
+                if r < 0.15 and own:
+                    long_tags.append([b'e', rng.choice(own)['id'].hex().encode()])
+                elif r < 0.45:
+                    long_tags.append([b'a', b'30023:' + pk.hex().encode() + b':long' + str(i).encode()])
+                else:
+                    long_tags.append([b'e', (bytes([0x90 + i % 16, i // 16]) * 16).hex().encode()])
+            foreign = [e for e in known if e['pk'] != pk]
+            tail = rng.choice(['foreign', 'foreign', 'toolong', 'none'])
+            if tail == 'foreign' and foreign:
+                long_tags.append([b'e', rng.choice(foreign)['id'].hex().encode()])
+            elif tail == 'toolong':
+                long_tags.append([b'a', b'30023:' + pk.hex().encode() + b':' + b'z' * 480])
+            tags = tags[:1] + long_tags
         ev = self.new_event(kind=5, pk=pk, tags=tags, content=b'')
         if rng.random() < 0.05:
             ev['tags'].append([b'e', ev['id'].hex().encode()])    # names itself
